@@ -91,6 +91,37 @@ def run_mutants(pids, tier="quick", verbose=True):
     return total, det, missed
 
 
+BENIGN = os.path.join(core.VERIF, "benign")
+
+
+def run_benign(pids, tier="quick", verbose=True):
+    """behaviour-preserving rewrites: the checks must stay silent (no violation, no analysis-broken)"""
+    total = quiet = 0
+    alarms = []
+    for pid in pids:
+        p = os.path.join(BENIGN, pid + ".json")
+        if not os.path.exists(p):
+            continue
+        for m in json.load(open(p)):
+            total += 1
+            d = make_scratch()
+            try:
+                apply_edits(d, m["edits"])
+                viols, broken = analyse(pid, d, tier)
+            except core.AnalysisBroken as e:
+                viols, broken = [], ["%s" % e]
+            finally:
+                shutil.rmtree(d, ignore_errors=True)
+            ok = not viols and not broken
+            quiet += ok
+            if not ok:
+                alarms.append((pid, m["name"]))
+            if verbose:
+                print("%-4s benign/%-37s %s %s" % (pid, m["name"], "SILENT  " if ok else "ALARM   ",
+                                                   "" if ok else ((viols[0]["rule"] + " " + viols[0]["instance"]) if viols else "broken:" + ";".join(broken)[:200])))
+    return total, quiet, alarms
+
+
 def run_seeded(pids=None, tier="quick", verbose=True):
     total = det = 0
     missed = []
@@ -130,7 +161,10 @@ def main(args, tier):
     pids = [a for a in args if a.startswith("C")] or sorted(f[:-5] for f in os.listdir(MUT) if f.endswith(".json"))
     t, d, missed = run_mutants(pids, tier)
     t2, d2, missed2 = run_seeded(pids if args else None, tier)
-    print("selftest: mutants %d/%d detected, seeded %d/%d detected" % (d, t, d2, t2))
+    t3, q3, alarms = run_benign(pids, tier)
+    print("selftest: mutants %d/%d detected, seeded %d/%d detected, benign rewrites %d/%d silent" % (d, t, d2, t2, q3, t3))
     for m in missed + missed2:
         print("  MISSED %s %s" % m)
+    for m in alarms:
+        print("  FALSE-ALARM %s %s" % m)
     return 0
